@@ -254,4 +254,119 @@ Section SCProofs.
     rewrite (proj2 (bheqb_spec _ _) Hbh), (proj2 (heqb_spec _ _) Hbs). cbn [negb].
     rewrite Hbc, Nat.eqb_refl. reflexivity.
   Qed.
+  Lemma sc_reach_d_reach db root d n : reach_d db root d n -> reach db root n.
+  Proof.
+    induction 1 as [d n Hg|d p h n Hp IH Hc Hg]; [apply sc_reach_root; exact Hg|].
+    apply (sc_reach_child node hash heqb H children db root p h n IH Hc Hg).
+  Qed.
+
+  (* ---- the repaired apply ---- *)
+  Notation sync_fix := (sc_sync_fix node hash bhash heqb bheqb H children).
+  Notation closed := (sc_closed node hash heqb H children).
+
+  Lemma sc_get_app_r a b h m : get b h = Some m -> exists m', get (a ++ b) h = Some m'.
+  Proof. intros Hg. rewrite sc_get_app. destruct (get a h); eauto. Qed.
+
+  Lemma sc_sync_fix_inv local b cs db' r : sync_fix local b cs = ScOk db' r ->
+    sync local b cs = ScOk db' r /\
+    sc_refs_ok node hash heqb H children db' (sc_nodes cs) = true.
+  Proof.
+    unfold sc_sync_fix, sc_sync, sc_apply_fix. destruct (valid _ _); [|discriminate].
+    destruct (apply local b cs true) as [db r0| |e] eqn:E; try discriminate.
+    destruct (sc_refs_ok _ _ _ _ _ db _) eqn:Er; [|discriminate]. intros Hok. inversion Hok. subst. auto.
+  Qed.
+
+  (* with the repair, what is accepted is a complete state: every key of it can be read *)
+  Lemma sc_fix_accepted_complete local b cs db' r : sync_fix local b cs = ScOk db' r -> closed local ->
+    complete db' r.
+  Proof.
+    intros Hok Hcl. destruct (sc_sync_fix_inv _ _ _ _ _ Hok) as [Hs Hrefs].
+    destruct (sc_sync_ok_inv _ _ _ _ _ Hs) as (_ & Hst & _ & Hv & Hdb & Hr). subst db' r.
+    assert (Hroot : exists n, get (sc_nodes cs ++ local) (sb_state b) = Some n).
+    { unfold sc_valid in Hv. apply andb_prop in Hv. destruct Hv as [Hv _]. apply andb_prop in Hv. destruct Hv as [_ Hh].
+      unfold sc_has in Hh. rewrite Hst. destruct (get (sc_nodes cs) (sc_root cs)) as [n|] eqn:E; [|discriminate].
+      exists n. rewrite sc_get_app, E. reflexivity. }
+    split; [exact Hroot|]. intros p Hp h Hin.
+    assert (Hpin : In p (sc_nodes cs ++ local)).
+    { inversion Hp as [n Hg|q h' n Hq Hi Hg]; subst; apply sc_get_some in Hg; tauto. }
+    apply in_app_or in Hpin. destruct Hpin as [Hn|Hl].
+    - unfold sc_refs_ok in Hrefs. rewrite forallb_forall in Hrefs. specialize (Hrefs p Hn).
+      rewrite forallb_forall in Hrefs. specialize (Hrefs h Hin). unfold sc_has in Hrefs.
+      destruct (get (sc_nodes cs ++ local) h) as [m|]; [eauto|discriminate].
+    - destruct (Hcl p Hl h Hin) as [m Hm]. eapply sc_get_app_r. exact Hm.
+  Qed.
+
+  (* and honest change sets still pass: the executed state is complete, so every reference of a
+     new node is a new node or a node of the previous db *)
+  Lemma sc_fix_honest prev_db bh root new b :
+    new <> [] -> NoDup (map H new) ->
+    (forall n, In n new -> reach_d new root (length new) n) ->
+    (exists r, In r new /\ H r = root) ->
+    sb_hash b = bh -> sb_state b = root -> sb_count b = length new ->
+    complete (new ++ prev_db) root ->
+    sync_fix prev_db b (sc_new_change node hash bhash bh root new) = ScOk (new ++ prev_db) root.
+  Proof.
+    intros Hne Hnd Hreach Hr Hbh Hbs Hbc Hcomp.
+    pose proof (sc_honest_change_reproduces prev_db bh root new b Hne Hnd Hreach Hr Hbh Hbs Hbc) as Hs.
+    unfold sc_sync_fix, sc_sync in *. destruct (valid _ _); [|discriminate]. unfold sc_apply_fix. rewrite Hs.
+    cbn [sc_new_change sc_nodes].
+    assert (Hrefs : sc_refs_ok node hash heqb H children (new ++ prev_db) new = true).
+    { unfold sc_refs_ok. apply forallb_forall. intros n Hn. apply forallb_forall. intros h Hin.
+      destruct Hcomp as [_ Hc].
+      assert (Hrn : reach (new ++ prev_db) root n).
+      { apply sc_reach_app_l. eapply sc_reach_d_reach. apply Hreach. exact Hn. }
+      destruct (Hc n Hrn h Hin) as [m Hm]. unfold sc_has. rewrite Hm. reflexivity. }
+    rewrite Hrefs. reflexivity.
+  Qed.
 End SCProofs.
+
+(* ---------- the full statement fails for the code as it is ---------- *)
+
+(* a concrete store: node = its own hash; 1 -> {2,3} is the previous state, 4 -> {2,5} the new one *)
+Definition scx_children (n : Z) : list Z :=
+  if Z.eqb n 1 then [2; 3]%Z else if Z.eqb n 4 then [2; 5]%Z else [].
+
+Lemma scx_refutes :
+  let sync := sc_sync Z Z Z Z.eqb Z.eqb (fun n => n) scx_children in
+  let prev := [1; 2; 3]%Z in
+  let blk := {| sb_hash := 77%Z; sb_state := 4%Z; sb_count := 2; sb_prev_state := Some 1%Z |} in
+  let cs := {| sc_blk := 77%Z; sc_root := 4%Z; sc_nodes := [4; 2]%Z |} in   (* 5 withheld, padded with the old node 2 *)
+  sync prev blk cs = ScOk ([4; 2] ++ prev)%Z 4%Z /\
+  sc_complete Z Z Z.eqb (fun n => n) scx_children [4; 2; 5]%Z 4%Z /\
+  ~ sc_complete Z Z Z.eqb (fun n => n) scx_children ([4; 2] ++ prev)%Z 4%Z.
+Proof.
+  cbv zeta. split; [vm_compute; reflexivity|]. split.
+  - split; [exists 4%Z; reflexivity|]. intros p Hp h Hin.
+    assert (Hpin : In p [4; 2; 5]%Z).
+    { inversion Hp as [n Hg|q h' n Hq Hi Hg]; subst;
+        apply (sc_get_some Z Z Z.eqb (fun n => n) Z.eqb_eq) in Hg; tauto. }
+    destruct Hpin as [<-|[<-|[<-|[]]]]; cbn in Hin.
+    + destruct Hin as [<-|[<-|[]]]; eexists; vm_compute; reflexivity.
+    + destruct Hin.
+    + destruct Hin.
+  - intros [_ Hc].
+    assert (Hr : sc_reach Z Z Z.eqb (fun n => n) scx_children ([4; 2] ++ [1; 2; 3])%Z 4%Z 4%Z)
+      by (apply sc_reach_root; vm_compute; reflexivity).
+    destruct (Hc 4%Z Hr 5%Z ltac:(cbn; auto)) as [m Hm]. vm_compute in Hm. discriminate.
+Qed.
+
+
+Lemma sc_full_refuted :
+  ~ (forall (node hash bhash : Type) (heqb : hash -> hash -> bool) (bheqb : bhash -> bhash -> bool)
+            (H : node -> hash) (children : node -> list hash),
+       (forall a b, heqb a b = true <-> a = b) -> (forall a b, bheqb a b = true <-> a = b) ->
+       (forall a b, H a = H b -> a = b) ->
+       forall local b cs db' r,
+         sc_sync node hash bhash heqb bheqb H children local b cs = ScOk db' r ->
+         sc_closed node hash heqb H children local ->
+         (exists dbH, sc_complete node hash heqb H children dbH (sb_state b)) ->
+         sc_complete node hash heqb H children db' r).
+Proof.
+  intros Hfull. destruct scx_refutes as (Hs & Hc & Hn). apply Hn.
+  apply (Hfull Z Z Z Z.eqb Z.eqb (fun n => n) scx_children Z.eqb_eq Z.eqb_eq (fun a b E => E) _ _ _ _ _ Hs).
+  - intros n Hin h Hh. destruct Hin as [<-|[<-|[<-|[]]]]; cbn in Hh.
+    + destruct Hh as [<-|[<-|[]]]; eexists; vm_compute; reflexivity.
+    + destruct Hh.
+    + destruct Hh.
+  - exists [4; 2; 5]%Z. exact Hc.
+Qed.
